@@ -482,3 +482,76 @@ Example cb_code_preserved_nonvacuous :
   callback_error (EJrpc 7 [109]%N [32; 49]%N) = EJrpc 7 [109]%N [49]%N /\
   callback_error (EPlain [120]%N) = EJrpc SystemError [120]%N [].
 Proof. repeat split; vm_compute; reflexivity. Qed.
+
+(* ------------------------------------------------------------------------- *)
+(* Part D: compaction keeps valid UTF-8 (squeeze drops / rewrites ASCII bytes and whole
+   E2 80 A8 / E2 80 A9 sequences only) *)
+Local Open Scope N_scope.
+
+Lemma cont_outc b : Json.is_cont b = true -> outc b.
+Proof.
+  unfold Json.is_cont, in_rng. intros H. apply andb_true_iff in H as [A B]. apply N.leb_le in A, B. split.
+  - unfold is_ws. repeat match goal with |- context [?a =? ?b] => replace (a =? b) with false by (symmetry; apply N.eqb_neq; lia) end. reflexivity.
+  - apply N.eqb_neq. lia.
+Qed.
+
+Lemma sq_conts_out a rest : forallb Json.is_cont a = true -> squeeze SqOut (a ++ rest) = a ++ squeeze SqOut rest.
+Proof.
+  intros H. apply sq_plain. apply Forall_forall. intros x Hx. rewrite forallb_forall in H. exact (cont_outc x (H x Hx)).
+Qed.
+
+Lemma sq_conts_in a : forall rest, forallb Json.is_cont a = true -> squeeze SqIn (a ++ rest) = a ++ squeeze SqIn rest.
+Proof.
+  induction a as [|b a IH]; intros rest H; [reflexivity|]. cbn [forallb] in H. apply andb_true_iff in H as [Hb Ha].
+  destruct (cont_plain b Hb) as [A B].
+  assert (Hb' : 128 <= b <= 191) by (unfold Json.is_cont, in_rng in Hb; apply andb_true_iff in Hb as [X Y]; apply N.leb_le in X, Y; lia).
+  cbn [app]. rewrite (sq_in_plain b _ B) by (apply N.eqb_neq; lia). rewrite html_emit_special, A. cbn [app]. rewrite (IH rest Ha). reflexivity.
+Qed.
+
+Lemma high_not_special c : 128 <= c -> special c = false /\ is_ws c = false /\ (c =? 34) = false /\ (c =? 92) = false.
+Proof.
+  intros H. unfold special, is_ws.
+  repeat match goal with |- context [?a =? ?b] => replace (a =? b) with false by (symmetry; apply N.eqb_neq; lia) end.
+  repeat split; reflexivity.
+Qed.
+
+Lemma squeeze_valid_len m : forall d st, (length d <= m)%nat -> valid_utf8_k O d = true -> valid_utf8_k O (squeeze st d) = true.
+Proof.
+  induction m as [|m IH]; intros d st Hl Hv.
+  - destruct d; [destruct st; reflexivity | cbn in Hl; lia].
+  - destruct d as [|c r]; [destruct st; reflexivity|]. cbn [length] in Hl. cbn [valid_utf8_k] in Hv.
+    destruct (c <? 128) eqn:Ec.
+    + apply N.ltb_lt in Ec.
+      assert (Hgen : forall a st', all_ascii a = true -> valid_utf8_k O (a ++ squeeze st' r) = true).
+      { intros a st' Ha. rewrite (valid_ascii_app a _ Ha). apply IH; [lia | exact Hv]. }
+      destruct st; cbn [squeeze].
+      * change (is_space c) with (is_ws c). destruct (is_ws c); [apply IH; [lia | exact Hv]|].
+        apply (Hgen [c]). cbn [all_ascii forallb]. replace (c <? 128) with true by (symmetry; apply N.ltb_lt; exact Ec). reflexivity.
+      * rewrite (ls_ahead_none c r) by (apply N.eqb_neq; lia). rewrite html_emit_special.
+        apply Hgen. destruct (special c) eqn:Es.
+        -- unfold special in Es. repeat (apply orb_true_iff in Es as [Es|Es]); apply N.eqb_eq in Es; subst c; reflexivity.
+        -- cbn [all_ascii forallb]. replace (c <? 128) with true by (symmetry; apply N.ltb_lt; exact Ec). reflexivity.
+      * apply (Hgen [c]). cbn [all_ascii forallb]. replace (c <? 128) with true by (symmetry; apply N.ltb_lt; exact Ec). reflexivity.
+    + apply N.ltb_ge in Ec. destruct (utf8_seq_len c r) as [|n] eqn:El; [discriminate Hv|].
+      destruct (seq_len_conts c r n El) as [Hcs Hln].
+      rewrite valid_k_firstn in Hv. apply andb_true_iff in Hv as [_ Hv].
+      destruct (high_not_special c Ec) as (Hs & Hw & H34 & H92).
+      assert (IHs : forall st', valid_utf8_k O (squeeze st' (skipn n r)) = true) by (intros st'; apply IH; [rewrite skipn_length; lia | exact Hv]).
+      assert (Hin : valid_utf8_k O (c :: squeeze SqIn r) = true).
+      { rewrite <- (firstn_skipn n r) at 1. rewrite (sq_conts_in _ _ Hcs). rewrite (valid_seq c r n _ El). apply IHs. }
+      destruct st; cbn [squeeze].
+      * change (is_space c) with (is_ws c). rewrite Hw, H34.
+        rewrite <- (firstn_skipn n r) at 1. rewrite (sq_conts_out _ _ Hcs). rewrite (valid_seq c r n _ El). apply IHs.
+      * destruct (ls_ahead c r) as [b2|] eqn:Ela.
+        -- destruct (ErrsJsonProofs.ls_ahead_some c r b2 Ela) as (-> & r2 & -> & Hb2).
+           assert (n = 2%nat) by (destruct Hb2 as [-> | ->]; vm_compute in El; injection El as <-; reflexivity). subst n.
+           cbn [skipn] in IHs. rewrite valid_ascii_app; [apply IHs|]. destruct Hb2 as [-> | ->]; reflexivity.
+        -- rewrite H34, H92, html_emit_special, Hs. exact Hin.
+      * exact Hin.
+Qed.
+
+(* json.Compact / json.Marshal(RawMessage) of valid UTF-8 is valid UTF-8 *)
+Theorem compact_valid_utf8 : forall p q, Json.compact p = Some q -> Json.valid_utf8 p = true -> Json.valid_utf8 q = true.
+Proof.
+  intros p q H Hv. rewrite <- (squeeze_is_compact p q H). exact (squeeze_valid_len (length p) p SqOut (le_n _) Hv).
+Qed.
